@@ -1,5 +1,6 @@
 /- Helper lemmas for C04 (sets as duplicate-free lists, counting). -/
 import SoundeventModel.Relational
+import SoundeventModel.RelationalHistory
 namespace SE.Proofs.Lemmas.Relational
 open SE SE.Relational
 
@@ -86,5 +87,66 @@ theorem exactly_once_iff {xs ys : List α} :
       · rw [h1 x (h2 x hx)]; omega
       · rw [List.count_eq_zero.mpr hx]; omega
     · apply List.count_pos_iff.mp; rw [h1 x hx]; omega
+
+/-! ### renaming by an injective map -/
+
+variable {β : Type} [DecidableEq β]
+
+omit [DecidableEq α] [DecidableEq β] in
+theorem mem_map_of_inj {f : α → β} (hf : ∀ x y, f x = f y → x = y) {x : α} {xs : List α} :
+    f x ∈ xs.map f ↔ x ∈ xs := by
+  constructor
+  · intro h
+    obtain ⟨y, hy, e⟩ := List.mem_map.mp h
+    exact hf y x e ▸ hy
+  · intro h; exact List.mem_map.mpr ⟨x, h, rfl⟩
+
+omit [DecidableEq α] [DecidableEq β] in
+theorem nodup_map_of_inj {f : α → β} (hf : ∀ x y, f x = f y → x = y) (xs : List α) :
+    (xs.map f).Nodup ↔ xs.Nodup := by
+  induction xs with
+  | nil => simp
+  | cons y ys ih =>
+    rw [List.map_cons, List.nodup_cons, List.nodup_cons, ih, mem_map_of_inj hf]
+
+omit [DecidableEq α] [DecidableEq β] in
+theorem same_members_map {f : α → β} (hf : ∀ x y, f x = f y → x = y) (xs ys : List α) :
+    (∀ y, y ∈ xs.map f ↔ y ∈ ys.map f) ↔ (∀ x, x ∈ xs ↔ x ∈ ys) := by
+  constructor
+  · intro h x
+    have := h (f x)
+    rwa [mem_map_of_inj hf, mem_map_of_inj hf] at this
+  · intro h y
+    constructor
+    · intro hy
+      obtain ⟨x, hx, e⟩ := List.mem_map.mp hy
+      exact List.mem_map.mpr ⟨x, (h x).mp hx, e⟩
+    · intro hy
+      obtain ⟨x, hx, e⟩ := List.mem_map.mp hy
+      exact List.mem_map.mpr ⟨x, (h x).mpr hx, e⟩
+
+/-! ### histories -/
+
+theorem runHistory_append (st : Store) (pre post : List HStep) :
+    runHistory st (pre ++ post) = runHistory st pre ++ runHistory (execAll st pre) post := by
+  induction pre generalizing st with
+  | nil => simp [runHistory, execAll]
+  | cons s rest ih =>
+    simp only [List.cons_append, runHistory, execAll]
+    cases s.verdict st with
+    | none => exact ih _
+    | some v => simp [ih]
+
+theorem execAll_append (st : Store) (pre post : List HStep) :
+    execAll st (pre ++ post) = execAll (execAll st pre) post := by
+  induction pre generalizing st with
+  | nil => rfl
+  | cons s rest ih => simp [execAll, ih]
+
+theorem Store.get_put_same (st : Store) (h : Nat) (c : Coll) : (st.put h c).get h = some c := by
+  simp [Store.put, Store.get]
+
+theorem Store.get_put_other (st : Store) {h h' : Nat} (c : Coll) (hne : h' ≠ h) : (st.put h c).get h' = st.get h' := by
+  simp [Store.put, Store.get, Ne.symm hne]
 
 end SE.Proofs.Lemmas.Relational
